@@ -3,8 +3,8 @@
    Model: model/Seeder.v (labelled transition system of the reader loop, the sender workers and
    the API calls; all schedules = all label sequences; repaired code, fixes/C17.patch).
    Specification: spec/SeederSpec.v. *)
-From Coq Require Import NArith List Bool.
-From LV Require Import model.Seeder spec.SeederSpec proofs.SeederProofs proofs.SeederQueues proofs.SeederSessions proofs.SeederLifetime proofs.SeederCounts proofs.SeederRefine.
+From Coq Require Import NArith List Bool Sorted.
+From LV Require Import model.Seeder spec.SeederSpec proofs.SeederProofs proofs.SeederQueues proofs.SeederSessions proofs.SeederLifetime proofs.SeederCounts proofs.SeederRefine proofs.SeederLiveness proofs.SeederOrder model.WorkersFifo proofs.WorkersFifoProofs.
 Import ListNotations.
 Local Open Scope N_scope.
 
@@ -60,6 +60,56 @@ Theorem C17_spec_prefix_decides : forall l m, is_prefix l m = true <-> exists re
 Proof. exact is_prefix_spec. Qed.
 Theorem C17_spec_equal_decides : forall l m, items_eqb l m = true <-> l = m.
 Proof. exact items_eqb_spec. Qed.
+
+(* Per incarnation the responses are sent in the order of the requests they serve (what the
+   checker tags_sorted tests on the implementation's logs). *)
+Theorem C17_sent_in_request_order : forall cfg db ops k,
+  sorted_keys db ->
+  let tr := snd (run v_fixed cfg db (init cfg) ops) in
+  StronglySorted ser_le (sel k (sents tr)).
+Proof. exact sent_in_request_order. Qed.
+
+(* The remaining boolean checkers of SeederSpec.seeder_spec_ok decide the Props used in the
+   theorems: tags_sorted <-> adjacent responses serve non-decreasing serials
+   (C17_sent_in_request_order); done_only_last <-> no response before the last is marked done
+   (C17_session_content); counts_ok / done_by <-> every served request got its chunks or a done
+   response of its incarnation with a serial not later than its own (C17_requests_complete). *)
+Theorem C17_spec_tags_sorted_decides : forall rs,
+  tags_sorted rs = true <-> forall l1 x y l2, rs = l1 ++ x :: y :: l2 -> o_tag x <= o_tag y.
+Proof. exact tags_sorted_spec. Qed.
+Theorem C17_spec_done_only_last_decides : forall rs,
+  done_only_last rs = true <-> forall l1 x l2, rs = l1 ++ x :: l2 -> l2 <> [] -> o_done x = false.
+Proof. exact done_only_last_spec. Qed.
+Theorem C17_spec_counts_decides : forall ops exp incs,
+  counts_ok ops exp incs = true <->
+  forall rq c, In (SReq rq) ops -> expect_of (r_serial rq) exp = Some (XServe c) ->
+    count_tag (r_serial rq) (inc_of c incs) = r_chunks rq \/
+    exists x, In x (inc_of c incs) /\ o_done x = true /\ o_tag x <= r_serial rq.
+Proof. exact counts_ok_spec. Qed.
+
+(* utils/workers, the pool behind every sender thread (model/Workers.v: Enqueue / refuse after
+   quit / take / finish / exit / Drain / quit, all schedules): tasks are started in the order
+   in which Enqueue accepted them, every accepted task is queued, started or drained exactly
+   once, the channel stays within its capacity; with one worker (Start(1), what the seeder uses)
+   tasks are executed in acceptance order.  This is what the seeder model's "one FIFO per
+   sender" stands for; the two models are not composed in Coq. *)
+Theorem C17_workers_safe : forall cap n ops,
+  let s := wrun (w_init cap n) ops in
+  Sublist (w_started s ++ w_tasks s) (w_accepted s) /\
+  Permutation.Permutation (w_accepted s) (w_started s ++ w_tasks s ++ w_drained s) /\
+  Permutation.Permutation (w_started s) (w_executed s ++ w_running s) /\
+  (length (w_tasks s) <= Nat.max cap 1)%nat.
+Proof. exact workers_safe. Qed.
+
+Theorem C17_workers_one_fifo : forall cap ops,
+  let s := wrun (w_init cap 1) ops in
+  w_started s = w_executed s ++ w_running s /\ Sublist (w_executed s) (w_accepted s).
+Proof. exact one_worker_fifo. Qed.
+
+Example C17_workers_nontrivial :
+  let s := wrun (w_init 2 1) [WEnqueue 1; WEnqueue 2; WTake 0; WEnqueue 3; WEnqueue 4; WFinish 0; WTake 0; WDrain; WQuit; WFinish 0; WExit 0; WTake 0] in
+  w_executed s = [1; 2]%N /\ w_drained s = [3]%N /\ w_accepted s = [1; 2; 3]%N /\ w_workers s = [WGone].
+Proof. vm_compute. auto. Qed.
 
 (* non-vacuity: a sorted item list and a history in which a session is created, resumed and
    finished *)
@@ -160,20 +210,67 @@ Theorem C17_requests_bounded : forall cfg db ops,
     count_serial (r_serial rq) (enqs tr) = i /\ i <= r_chunks rq.
 Proof. exact requests_bounded. Qed.
 
-(* What is not proved (kept visible): progress of the runtime.  All theorems above are safety
-   statements over all schedules; that the reader does return to its select and that every
-   enqueued response is eventually sent needs fair scheduling of the goroutines.  The
-   possibility form (quiescence is reachable from every reachable state) is: *)
+(* Progress under fair scheduling, as a bounded-steps statement about the transition system.
+   A round (SeederLiveness.round) schedules the reader's label once and every sender worker once;
+   labels that are not enabled are skipped.  From every reachable state at most [measure st]
+   rounds (an explicit bound: labels still to be executed) lead to quiescence - reader in select,
+   both channels and all sender queues empty - and then every response the reader produced has
+   been sent.  Hypotheses: at least one sender thread, a positive pending limit.  Fairness is the
+   explicit assumption "every round runs every worker and the reader once"; that the Go
+   scheduler provides it is not proved. *)
+Theorem C17_liveness_bounded : forall v cfg db ops,
+  1 <= c_threads cfg -> 0 < c_limit cfg ->
+  let st := fst (run v cfg db (init cfg) ops) in
+  let tr := snd (run v cfg db (init cfg) ops) in
+  exists k, (k <= measure st)%nat /\
+    let x := rounds k v cfg db (st, tr) in
+    quiescent (fst x) /\ (exists e, snd x = tr ++ e) /\
+    forall inc, sel inc (sents (snd x)) = sel inc (enqs (snd x)).
+Proof. exact liveness_bounded. Qed.
+
+(* ... so the "exactly one done response" clause is not safety-only: under fair rounds the done
+   response of every finished session is actually sent (and by C17_session_content it is the
+   last response of its incarnation, after the whole range). *)
+Theorem C17_done_response_is_sent : forall cfg db ops,
+  sorted_keys db -> 1 <= c_threads cfg -> 0 < c_limit cfg ->
+  let st := fst (run v_fixed cfg db (init cfg) ops) in
+  let tr := snd (run v_fixed cfg db (init cfg) ops) in
+  exists k, (k <= measure st)%nat /\
+    let x := rounds k v_fixed cfg db (st, tr) in
+    quiescent (fst x) /\
+    forall key ss, sess_get key (st_sessions (fst x)) = Some ss -> s_done ss = true ->
+      exists r, In r (sents (snd x)) /\ rs_inc r = s_inc ss /\ rs_done r = true.
+Proof. exact done_response_is_sent. Qed.
+
+(* C17_full of the earlier rounds (quiescence reachable from every reachable state) is the
+   existential weakening of C17_liveness_bounded. *)
 Definition C17_full : Prop :=
-  forall cfg db ops, sorted_keys db -> 1 <= c_threads cfg -> 0 < c_limit cfg ->
-  exists ops',
-    let st := fst (run v_fixed cfg db (init cfg) (ops ++ ops')) in
-    st_reader st = RIdle /\ st_chreq st = [] /\ st_chunreg st = [] /\ concat (st_senders st) = [].
+  forall cfg db ops, 1 <= c_threads cfg -> 0 < c_limit cfg ->
+  exists k, quiescent (fst (rounds k v_fixed cfg db (run v_fixed cfg db (init cfg) ops))).
+Theorem C17_full_holds : C17_full.
+Proof.
+  intros cfg db ops H1 H2. destruct (liveness_bounded v_fixed cfg db ops H1 H2) as [k [_ [Hq _]]].
+  exists k. destruct (run v_fixed cfg db (init cfg) ops). exact Hq.
+Qed.
+
+(* the hypotheses are satisfiable and the bound is not trivial *)
+Example C17_liveness_nonvacuous :
+  let st := fst (run v_fixed w_cfg w_db (init w_cfg)
+                     [ORequest (mkReq 1 1 0 9 3 100 2 0); OReadReq; OReader; OReader]) in
+  ~ quiescent st /\ measure st = 12%nat /\
+  quiescent (fst (rounds 8 v_fixed w_cfg w_db (st, []))).
+Proof. vm_compute. split; [intros [H _]; discriminate|]. split; [reflexivity|]. repeat split. Qed.
 
 Print Assumptions C17_limits.
 Print Assumptions C17_session_content.
 Print Assumptions C17_spec_prefix_decides.
 Print Assumptions C17_spec_equal_decides.
+Print Assumptions C17_sent_in_request_order.
+Print Assumptions C17_spec_tags_sorted_decides.
+Print Assumptions C17_spec_done_only_last_decides.
+Print Assumptions C17_spec_counts_decides.
+Print Assumptions C17_workers_safe.
+Print Assumptions C17_workers_one_fifo.
 Print Assumptions C17_peer_sessions_exact.
 Print Assumptions C17_session_resumable.
 Print Assumptions C17_resume_no_creation.
@@ -181,5 +278,8 @@ Print Assumptions C17_lifetime_simulation.
 Print Assumptions C17_requests_complete.
 Print Assumptions C17_requests_bounded.
 Print Assumptions C17_requests_never_exceed.
+Print Assumptions C17_liveness_bounded.
+Print Assumptions C17_done_response_is_sent.
+Print Assumptions C17_full_holds.
 Print Assumptions C17_pending_bound.
 Print Assumptions C17_fifo.
